@@ -239,6 +239,8 @@ class RelEval:
                 return self.m.strict_anc(base, a)
         if isinstance(cont, ast.Attribute) and cont.attr == "children":
             return a in self.m.children(self.term(cont.value))
+        if isinstance(cont, (ast.Tuple, ast.List, ast.Set)):
+            return any(a == self.term(e) for e in cont.elts)
         raise AnalysisError(f"relational model: container `{short(cont)}` is not recognised")
 
 
